@@ -200,7 +200,9 @@ CONTRACTS = [
 # overwritten by another institution (another ORG/FID pair) - whatever characters the identifiers contain.
 # (Two servers with the SAME ORG/FID and different URLs do share an entry: known finding KF-C15-cache-key-ignores-url.)
 IDENTS = [("ORG", "77"), ("ORG", "78"), ("ORG2", "77"), ("A&B Bank", "1"), ("A+B Bank", "1"), ("A B Bank", "1"), ("A_B Bank", "1"),
-          ("AB", "C"), ("A", "BC"), ("org", "77"), ("ÖRG", "77"), ("ORG.", "77"), ("ORG", "7.7"), ("ORG", "7-7"), ("ORG-7", "7")]
+          ("AB", "C"), ("A", "BC"), ("org", "77"), ("ÖRG", "77"), ("ORG.", "77"), ("ORG", "7.7"), ("ORG", "7-7"), ("ORG-7", "7"),
+          # dots in the ORG (institutions use their domain name): two entries of the FI database that ship with the library
+          ("msdw.com", "1235"), ("msdw.com", "14137"), ("a.b", "1"), ("a.b", "2")]
 
 
 def run_two(it, fn, a):
@@ -263,5 +265,5 @@ def cases_two(tier):
 CONTRACTS.append(
     Contract("ofxtools.Client:OFXClient.request_profile", args=[A_("first"), A_("second")], call=run_two,
              ensures=[("institutions-do-not-share-a-cache-entry", "result == []")], cases=cases_two, native_only=True, shards=8,
-             notes="every ordered pair of 15 distinct ORG/FID pairs (punctuation, blanks, case, non-ASCII, a '-' moved between ORG and FID): the second institution is asked without a date and served its own profile, the first keeps its own",
+             notes="every ordered pair of 19 distinct ORG/FID pairs (punctuation, blanks, case, non-ASCII, a '-' moved between ORG and FID): the second institution is asked without a date and served its own profile, the first keeps its own",
              props=["C15"]))
